@@ -253,7 +253,7 @@ def gen_request(r, want_head=None):
     if k < 5:
         body = b""
     elif k < 9:
-        body = r.bytes(r.range(1, 300))
+        body = r.bytes(r.choice([1, 1, 2, r.range(3, 300)]))
     else:
         body = r.bytes(r.choice([4095, 4096, 4097, 10000]))
     return method, path, hdrs, body
